@@ -79,7 +79,6 @@ def Scen.ev (s : Scen) (tok : String) : Scen :=
   | ["q", rq, act, e, f, n, _rid] =>
     match ints [rq, act, e, f, n] with
     | some [rq, act, e, f, n] =>
-      let s := if s.nq == 0 && f != s.start then s.flag "client-seq-chain" else s
       let isResend := s.mon.started && e == s.mon.epoch && f != s.mon.nextSeq && s.mon.chain.contains (f, n)
       let s := { s with nq := s.nq + 1, firstEpoch := s.firstEpoch <|> some e,
                         crossed := s.crossed || decide (f + n ≥ Model.C29C.seqMod), resend := s.resend || isResend,
@@ -157,7 +156,7 @@ def scenLine (opToks : List String) (impl : String) : String :=
     | some st =>
       match toks impl with
       | "h" :: evs =>
-        let s := (evs.foldl Scen.ev { start := st : Scen }).finish
+        let s := (evs.foldl Scen.ev { start := st, mon := Model.C29C.LMon.init st : Scen }).finish
         let v := match s.bad with | none => "1" | some k => "0:" ++ k
         s!"* | {v} | {boolStr (s.crossed && s.resend)}"
       | ["hang"] => "* | 0:client-stuck | 0"
